@@ -267,8 +267,14 @@ int main (void)
       printf ("n=%u", daemon_s.nonce_nc_size);
       for (unsigned int i = 0; i < daemon_s.nonce_nc_size; i++)
       {
-        printf (" %" PRIu32 ":%016" PRIx64 ":", daemon_s.nnc[i].nc, daemon_s.nnc[i].nmask);
-        lp_puthex (stdout, daemon_s.nnc[i].nonce, sizeof (daemon_s.nnc[i].nonce));
+        /* canonical form: only what can influence a later answer — mask bits at
+           positions >= nc are never read, nor is the buffer compared beyond the NUL
+           (the left-over bytes behind it are visible through the answers only) */
+        const struct MHD_NonceNc *nn = &daemon_s.nnc[i];
+        uint64_t m = nn->nmask;
+        if (nn->nc < 64) m &= (UINT64_C (1) << nn->nc) - 1;
+        printf (" %" PRIu32 ":%016" PRIx64 ":", nn->nc, m);
+        lp_puthex (stdout, nn->nonce, strnlen (nn->nonce, sizeof (nn->nonce)));
       }
       putchar ('\n');
     }
